@@ -11,6 +11,7 @@ from harness import common, tlc
 CFG = """CONSTANTS N = %d
  NMethods = %d
  WithOverrides = %s
+ SeqForm = SEQFORM
  Deviations = {}
 SPECIFICATION Spec
 INVARIANT RulesOnWellFormed
@@ -31,18 +32,22 @@ def ord_expr(o: dict) -> str:
     return f"order({o['k']}={o['x']!r})"
 
 
-def class_source(case: dict) -> str:
+def class_source(case: dict, hier: bool = False) -> str:
+    """With `hier` (no class-level override), the class is split anyway: the first fields and the FIRST serialized
+    method are declared by a base class -- the order of the elements is the same."""
     elts = case["elts"]
     fields = [e for e in elts if not e["method"]]
     methods = [e for e in elts if e["method"]]
     base_ov, sub_ov = case.get("ovs", [[], []])
-    split = (len(fields) + 1) // 2 if (base_ov or sub_ov) else len(fields)
+    split = (len(fields) + 1) // 2 if (base_ov or sub_ov or hier) else len(fields)
     lines = ["from dataclasses import dataclass, field", "from apischema import order, serialized", ""]
 
     def ov_deco(ov):
         if not ov:
             return []
-        return ["@order({" + ", ".join(f"{n!r}: {ord_expr(o)}" for n, o in ov) + "})"]
+        if ov[0][2] == "seq":      # {x1: after x0, x2: after x1} written as the sequence it came from
+            return ["@order([" + ", ".join(repr(x) for x in [ov[0][1]["x"]] + [n for n, _, _ in ov]) + "])"]
+        return ["@order({" + ", ".join(f"{n!r}: {ord_expr(o)}" for n, o, _ in ov) + "})"]
 
     def fld(e):
         oe = ord_expr(e["ord"])
@@ -52,11 +57,15 @@ def class_source(case: dict) -> str:
         oe = ord_expr(e["ord"])
         return [f"    @serialized(" + (f"order={oe}" if oe else "") + ")", f"    def {e['name']}(self) -> int:", "        return 1"]
 
-    if base_ov or sub_ov:
-        lines += ov_deco(base_ov) + ["@dataclass", "class Base:"] + ([fld(e) for e in fields[:split]] or ["    pass"])
+    if base_ov or sub_ov or hier:
+        base_methods = methods[:1] if hier else []
+        bbody = [fld(e) for e in fields[:split]]
+        for e in base_methods:
+            bbody += meth(e)
+        lines += ov_deco(base_ov) + ["@dataclass", "class Base:"] + (bbody or ["    pass"])
         lines += [""] + ov_deco(sub_ov) + ["@dataclass", "class K(Base):"]
         body = [fld(e) for e in fields[split:]]
-        for e in methods:
+        for e in methods[len(base_methods):]:
             body += meth(e)
         lines += body or ["    pass"]
     else:
@@ -69,7 +78,7 @@ def class_source(case: dict) -> str:
     return "\n".join(lines) + "\n"
 
 
-def views(case: dict) -> Dict[str, Any]:
+def views(case: dict, hier: bool = False) -> Dict[str, Any]:
     """The four views of the order in the real code."""
     import apischema.cache
     from apischema import serialize
@@ -82,7 +91,7 @@ def views(case: dict) -> Dict[str, Any]:
     sys.modules[name] = mod
     out: Dict[str, Any] = {}
     try:
-        exec(compile(class_source(case), f"<{name}>", "exec"), mod.__dict__)
+        exec(compile(class_source(case, hier), f"<{name}>", "exec"), mod.__dict__)
         K = mod.K
         for view, fn in (("serialize", lambda: list(serialize(K, K()))),
                          ("serialization_schema", lambda: list(serialization_schema(K).get("properties", {}))),
@@ -111,12 +120,13 @@ def main() -> int:
                        "there is the listed known finding"]
     states = trans = n = 0
     distinct = set()
-    configs = [(3, 1, False), (3, 1, True)] + ([(4, 1, False), (4, 2, False), (4, 1, True)] if thorough else [(4, 0, False)])
+    configs = [(3, 1, False), (3, 1, True), (3, 2, False)] + ([(4, 1, False), (4, 2, False), (4, 1, True)] if thorough else [(4, 0, False)])
     import random
 
     rng = random.Random(common.seed())
     for N, NM, ov in configs:
-        r = tlc.run_tlc("MC_Order", CFG % (N, NM, "TRUE" if ov else "FALSE", ""), workers=16, env={"EMIT": "1"}, timeout_s=3000)
+        r = tlc.run_tlc("MC_Order", (CFG % (N, NM, "TRUE" if ov else "FALSE", "")).replace("SEQFORM", "TRUE" if ov else "FALSE"),
+                        workers=16, env={"EMIT": "1"}, timeout_s=3000)
         states += r.distinct
         trans += r.states
         if r.violated:
@@ -125,8 +135,11 @@ def main() -> int:
         cases = [json.loads(json.loads(p)) for p in r.prints if p.startswith('"')]
         if not thorough and len(cases) > 6000:
             cases = rng.sample(cases, 6000)
-        for c in cases:
-            got = views(c)
+        variants = [(c, False) for c in cases]
+        if NM >= 2 and not ov:       # the same specifications with the elements spread over a base class and the class
+            variants += [(c, True) for c in cases]
+        for c, hier in variants:
+            got = views(c, hier)
             n += 1
             distinct.add(json.dumps([c["elts"], c.get("ovs")]))
             for view, actual in got.items():
@@ -146,11 +159,11 @@ def main() -> int:
                                       finding_key="F-order-orphans")
                     continue
                 rep.violation(f"{view}: order {actual} instead of {expected} (well-formed={wf})",
-                              {"case": c, "view": view, "expected": expected, "actual": actual, "source": class_source(c)})
+                              {"case": c, "view": view, "expected": expected, "actual": actual, "hier": hier, "source": class_source(c, hier)})
             if n % 1501 == 1:
                 rep.sample({"elts": c["elts"], "ovs": c.get("ovs"), "expected": c["order"], "views": got})
     # negative model check: the transcription of sort_by_order loses orphans / cycles
-    r = tlc.run_tlc("MC_Order", CFG % (3, 1, "FALSE", "INVARIANT NoLossEvenIllFormed"), workers=8, env={"EMIT": "0"}, timeout_s=3000)
+    r = tlc.run_tlc("MC_Order", (CFG % (3, 1, "FALSE", "INVARIANT NoLossEvenIllFormed")).replace("SEQFORM", "FALSE"), workers=8, env={"EMIT": "0"}, timeout_s=3000)
     rep.set("negative_check_orphans_dropped", r.violated or "NOT VIOLATED")
     if r.violated != "NoLossEvenIllFormed":
         raise tlc.MachineryError("negative model check: sort_by_order no longer loses orphans in the model")
